@@ -24,6 +24,7 @@ Lemma sched_start_inv s index :
 Proof.
   intros [A B C D E] Hg Hi Hs. unfold sched_start.
   destruct (r_len s <=? index) eqn:El; constructor; rsimpl; auto;
+    unfold fn_starts, ticks in *; rewrite ?zcount_cons in *; cbn [is_fn_start is_tick] in *;
     try (intros Hx; exfalso; auto; fail);
     try (destruct (r_tick_ready s); lia);
     try lia.
@@ -159,4 +160,66 @@ Proof.
   intros Hl. cbn [rstep]. destruct (r_g s); try discriminate. destruct (r_restart_buf s); [|discriminate].
   intros H. injection H as <-. unfold sched_start. rsimpl.
   destruct (r_len s <=? 0) eqn:E; rsimpl; lia.
+Qed.
+
+(* ---- a function start consumes a tick of the ticker of the schedule active at that moment:
+   the ticker is new at every (re)start of a schedule, so a tick delivered by an earlier
+   schedule's ticker is never taken for one of the current schedule *)
+
+Record RFresh (s : rstate) : Prop := {
+  rf_fresh : zcount is_fn_start (since_sched (r_trace s)) + (if r_tick_ready s then 1 else 0)
+             <= zcount is_tick (since_sched (r_trace s));
+  rf_active : active_sched (r_trace s) = r_idx s;
+  rf_idx : idx_consistent (r_trace s) = true
+}.
+
+Lemma rfresh_init len : RFresh (rinit len).
+Proof. constructor; cbn; [lia|reflexivity|reflexivity]. Qed.
+
+Lemma sched_start_fresh s index : RFresh s -> RFresh (sched_start s index []).
+Proof.
+  intros [A B C]. unfold sched_start. destruct (r_len s <=? index); constructor; rsimpl;
+    cbn [since_sched active_sched idx_consistent zcount]; auto; lia.
+Qed.
+
+Ltac ffin :=
+  cbn [since_sched active_sched idx_consistent]; rewrite ?zcount_cons; cbn [is_fn_start is_tick];
+  try match goal with |- context [if r_tick_ready ?s then _ else _] => destruct (r_tick_ready s) end;
+  try lia; auto.
+
+Theorem rstep_fresh s l s' : RFresh s -> rstep true s l = Some s' -> RFresh s'.
+Proof.
+  intros I H. destruct l; cbn [rstep] in H.
+  - destruct (r_g s); try discriminate. injection H as <-. destruct I as [A B C]. constructor; rsimpl; ffin.
+  - destruct (r_restart_buf s); [discriminate|]. injection H as <-. destruct I as [A B C]. constructor; rsimpl; ffin.
+  - destruct (r_g s); try discriminate; destruct (r_stop s); try discriminate; injection H as <-;
+      destruct I as [A B C]; constructor; rsimpl; ffin.
+  - destruct (r_stop s); try discriminate. destruct (stopped_closed true s); [|discriminate]. injection H as <-.
+    destruct I as [A B C]. constructor; rsimpl; ffin.
+  - injection H as <-. destruct I as [A B C]. constructor; rsimpl; ffin.
+  - destruct (r_g s); try discriminate; destruct (r_tick_ready s) eqn:Et; try discriminate; injection H as <-;
+      destruct I as [A B C]; constructor; rsimpl; cbn [since_sched active_sched idx_consistent];
+      rewrite ?zcount_cons; cbn [is_fn_start is_tick]; try lia; auto;
+      rewrite B, Z.eqb_refl; exact C.
+  - destruct (r_g s); try discriminate; destruct (r_timer_armed s); try discriminate; injection H as <-;
+      destruct I as [A B C]; constructor; rsimpl; ffin.
+  - destruct (r_g s); try discriminate. destruct (r_restart_buf s); [|discriminate]. injection H as <-.
+    apply sched_start_fresh. destruct I as [A B C]. constructor; rsimpl; auto.
+  - destruct (r_g s); try discriminate. destruct (r_timer_ready s); [|discriminate]. injection H as <-.
+    apply sched_start_fresh. destruct I as [A B C]. constructor; rsimpl; auto.
+  - destruct (r_g s); try discriminate. destruct (r_tick_ready s) eqn:Et; [|discriminate]. injection H as <-.
+    destruct I as [A B C]. constructor; rsimpl; cbn [since_sched active_sched idx_consistent];
+      rewrite ?zcount_cons; cbn [is_fn_start is_tick]; try lia; auto;
+      try (rewrite B, Z.eqb_refl; exact C).
+  - destruct (r_g s); try discriminate. injection H as <-. destruct I as [A B C]. constructor; rsimpl; ffin.
+  - destruct (r_g s); try discriminate. destruct (r_cancelled s); [|discriminate]. injection H as <-.
+    destruct I as [A B C]. constructor; rsimpl; ffin.
+Qed.
+
+Theorem rexec_fresh : forall ls s, RFresh s -> RFresh (rexec true s ls).
+Proof.
+  induction ls as [|l ls IH]; intros s I; [exact I|].
+  cbn [rexec fold_left]. destruct (rstep true s l) as [s'|] eqn:E.
+  - apply IH. eapply rstep_fresh; eauto.
+  - apply IH. exact I.
 Qed.
